@@ -3,6 +3,7 @@ package props
 import (
 	"fmt"
 	"sort"
+	"sync"
 	"sync/atomic"
 	"time"
 
@@ -273,4 +274,21 @@ func histHash(h []rec) uint64 {
 		x = core.Mix(x, uint64(r.Client)<<40|uint64(r.Op)<<32|uint64(uint32(r.Key)), uint64(r.Val), uint64(r.Call)<<20^uint64(r.Ret))
 	}
 	return x
+}
+
+// joinOrDeadlock waits for the goroutines of a free-running round. A round
+// whose goroutines are all parked for good (stop-the-world stack snapshot, see
+// core.Deadlocked) is a violation "deadlock"; a round that merely takes longer
+// than the generous wall clock is inconclusive. Returns true when joined.
+func joinOrDeadlock(c *core.Ctx, wg *sync.WaitGroup, sig, what string, extra map[string]any) bool {
+	st, where := core.WaitOrDeadlock(wg, 20*time.Second, 100*time.Second)
+	switch st {
+	case "done":
+		return true
+	case "deadlock":
+		c.Violate(sig+":deadlock", what+" never finishes: every goroutine of the round is parked for good ("+where+")", extra)
+	default:
+		c.Inconclusive(what + " did not finish within the watchdog (no deadlock proven)")
+	}
+	return false
 }
